@@ -3,6 +3,7 @@ CONSTANTS
   MaxLen = 2
   ApiFilter = {"localtxsubmission.SubmitTx", "localtxmonitor.HasTx", "localstatequery.GetCurrentEra", "chainsync.Sync",
                "blockfetch.GetBlock", "blockfetch.GetBlockRange", "peersharing.GetPeers", "txsubmission.RequestTxIdsBlocking"}
+  TmoOnly = {}
   Design = "repaired"
   Emit = FALSE
 SPECIFICATION Spec
